@@ -22,7 +22,11 @@ def scripts(rng, tier):
         # authenticating policy
         tag = rng.choice([4, 10, 10, 16])
         p.rtp = p.rtp[:2] + (HMAC, 20, tag, p.rtp[5] | 2)
-        p.rtcp = p.rtcp[:2] + (HMAC, 20, rng.choice([4, 10, 16]), p.rtcp[5] | 2)
+        # SRTCP is always authenticated, whatever sec_serv says: the service flags of the two directions are independent
+        p.rtcp = p.rtcp[:2] + (HMAC, 20, rng.choice([4, 10, 16]), rng.choice([0, 1, 2, 3, 3]))
+        # a third of the scripts: the receiver is keyed with a wildcard policy and has already accepted one genuine packet
+        # of the SSRC, so that the altered packets meet the per-SSRC CLONE of the template, not the template itself
+        wild = (k % 3 == 1)
         q = rand_policy(rng, ssrc=ssrc ^ 0x10, valid=True, mki=p.use_mki)     # a second stream with other keys
         q.rtp, q.rtcp, q.mki_size, q.use_mki = p.rtp, p.rtcp, p.mki_size, p.use_mki
         if p.use_mki:
@@ -30,12 +34,14 @@ def scripts(rng, tier):
         else:
             q.keys = [(rand_key(rng, len(p.keys[0][0])), b"")]; q.use_key_field = True
         L = [p.line(1), q.line(2), "create 1 1 2"]
+        if wild:
+            L.insert(2, p.line(3, ssrc_type=SSRC_ANY_IN))
         nrx = 0
         def fresh_rx():
             nonlocal nrx
             nrx += 1
             sid = 2 + (nrx % 40)
-            L.append(f"dealloc {sid:x}"); L.append(f"create {sid:x} 1 2")
+            L.append(f"dealloc {sid:x}"); L.append(f"create {sid:x} 3" if wild else f"create {sid:x} 1 2")
             return sid
         seq = 10
         genuine = []
@@ -49,6 +55,8 @@ def scripts(rng, tier):
             seq += 1
         for (src, rtcp, tot, s, mi) in genuine:
             uop = "unprotect_rtcp" if rtcp else "unprotect"
+            if wild and s != ssrc:
+                continue            # the wildcard receiver holds the first stream's keys only
             muts = []
             bits = list(range(8 * tot))
             tail_bits = [b for b in bits if b >= 8 * (tot - p.trailer(not rtcp))]
@@ -68,6 +76,11 @@ def scripts(rng, tier):
             # RTP <-> RTCP
             muts.append(("cross", src))
             sid = fresh_rx()
+            if wild:
+                prev = [g for g in genuine if g[3] == s and g[0] != src and g[3] == ssrc]
+                if prev and s == ssrc:
+                    g = prev[0]
+                    L.append(pkt_op("unprotect_rtcp" if g[1] else "unprotect", sid, f"@{g[0]:x}", cap=g[2] + 60)); L.append("# PRE")
             for m in muts:
                 if isinstance(m, tuple) and m[0] == "splice":
                     _, a, at, b, bt, tl = m
